@@ -1,5 +1,6 @@
 import Deb822Verif.Model.Derive
 import Deb822Verif.Model.Codec
+import Deb822Verif.Model.RelLossy
 /-
   Leaf codecs used by the deriving structs of the workspace: for every
   (serialize_with, deserialize_with, Rust type) triple that occurs in `Gen/Structs.lean`
@@ -236,6 +237,36 @@ def extCodec : LeafCodec where
   ser := fun v => match v with | .ext c => c | _ => []
   de := fun t => .ok (.ext t)
   canon := fun _ => False
+
+/-! ### two "external" codecs that have models in this framework (Props/C20Ext.lean)
+
+  The registry below still lists them as `external` (the harness answers them per request, which also
+  supplies the exact error texts); these definitions are what those answers must be: the driver
+  `Driver/TypedDoc.lean` compares every supplied answer for a `Relations` / `debversion::Version` field
+  with them, and `Props/C20Ext` proves the per-field conditions of C20 for them. -/
+
+/-- lossy `debian_control::lossy::Relations`: `FromStr` then `Display` (Model/RelLossy.lean). The value
+    is kept as its printed text, like every value of an external codec; the error text is the model's
+    (approximate where Rust prints `{:?}`). -/
+def relationsCodec : LeafCodec where
+  ser := extCodec.ser
+  de := fun t =>
+    match Rel.Lossy.readRelations t with
+    | .ok rs => .ok (.ext (Rel.Lossy.showRelations rs))
+    | .error e => .error e.toList
+  canon := fun v => ∃ rs, Rel.Lossy.readRelations (Rel.Lossy.showRelations rs) = .ok rs
+    ∧ v = .ext (Rel.Lossy.showRelations rs)
+
+/-- `debversion::Version`: `FromStr` then `Display` (Model/RelAccess.lean). The model has no error
+    text (`Option`); the text given here is the crate's for a regex mismatch (an epoch above `u32` has
+    another one) and is not part of any claim. -/
+def versionCodec : LeafCodec where
+  ser := extCodec.ser
+  de := fun t =>
+    match Rel.Version.parse t with
+    | some v => .ok (.ext v.display)
+    | none => .error (c!"Invalid version string: " ++ t)
+  canon := fun v => ∃ x, Rel.Version.parse x.display = some x ∧ v = .ext x.display
 
 /-! ### the registry -/
 
